@@ -178,10 +178,19 @@ func sweep(rh *hrw.RendezvousHash, u []node, cur []int, ks keyset, n int) (sweep
 	}
 	parts := make([]part, workers)
 	var wg sync.WaitGroup
+	var panicMu sync.Mutex
+	panicked := ""
 	for w := 0; w < workers; w++ {
 		wg.Add(1)
 		go func(w int) {
 			defer wg.Done()
+			defer func() { // a crash of the code under test inside a worker is recorded, not fatal for the run
+				if r := recover(); r != nil {
+					panicMu.Lock()
+					panicked = fmt.Sprint(r)
+					panicMu.Unlock()
+				}
+			}()
 			cls := map[string]*classRec{}
 			var sb strings.Builder
 			for ki := w; ki < len(ks.keys); ki += workers {
@@ -246,6 +255,9 @@ func sweep(rh *hrw.RendezvousHash, u []node, cur []int, ks keyset, n int) (sweep
 		}(w)
 	}
 	wg.Wait()
+	if panicked != "" { // re-raised on the driver's goroutine, where it becomes a "Panic" record of the trace
+		panic("code under test panicked during concurrent lookups: " + panicked)
+	}
 	all := map[string]*classRec{}
 	ties := 0
 	for _, p := range parts {
